@@ -74,6 +74,26 @@ theorem c20_no_result_no_restore (prof : Bool) (e : Ending) (body : Bool → Boo
     session false prof (.raised e) body = ([.sudoMinimize prof], e) := by
   simp [session, minimize, restoreNoise]
 
+/-- why SIGTERM has to be handled from the start of the session: a process that dies of a
+signal's default action never restores — FULL STATEMENT "every way a session can end" is false
+for it (the pinned tree had two such windows: before the first benchmark process, and the whole
+session under the parallel scheduler) -/
+theorem c20_killed_session_full_fails :
+    ¬ ∀ (prof : Bool) (rep : Report) (body : Bool → Bool → Body) (p : Nat), changed rep = true →
+        ((sessionDies prof rep body p).filter Ev.isRestore).length = 1 := by
+  intro h
+  have := h false (.json (some .yes) (some .yes) []) (fun _ _ => ⟨[.start 1, .stop 1], .ok true⟩) 1 (by decide)
+  revert this
+  decide
+
+/-- a handled SIGTERM is a `KeyboardInterrupt`: the body ends with `interrupt`, wherever it was,
+and `c20_restore_once` applies -/
+theorem c20_sigterm_handled (prof : Bool) (rep : Report) (tr : List BodyEv) (h : changed rep = true) :
+    ((session false prof rep (fun _ _ => ⟨tr, .interrupt⟩)).1.filter Ev.isRestore).length = 1 ∧
+    (session false prof rep (fun _ _ => ⟨tr, .interrupt⟩)).2 = .interrupt := by
+  obtain ⟨res, _, _, h2, h3⟩ := c20_restore_once prof rep (fun _ _ => ⟨tr, .interrupt⟩) h
+  exact ⟨h3, h2⟩
+
 /-! ## "with -D denoise is never invoked" -/
 
 theorem c20_noD_silent (prof : Bool) (rep : Report) (body : Bool → Bool → Body) :
